@@ -140,7 +140,7 @@ def describe(prog):
 def classify(chk, mode, rows, reported):
     for kind, idx, prog, o, ok in rows:
         feats = G.features(prog)
-        collision = kind not in ("fresh", "all-only", "ni-A", "probes", "corpus")
+        collision = kind not in ("fresh", "all-only", "ni-A", "probes", "corpus") and not kind.startswith("loops:") and not kind.endswith(":none")
         nontriv = "fill" in feats and ("comp-nested" in feats or "comp-in-loop" in feats) and collision
         chk.count(json.dumps(prog, sort_keys=True), nontriv, kind="%s/%s" % (mode, kind.split(":")[0].split("/")[0]),
                   sample={"mode": mode, "collision": kind, "page": G.d_tpls(prog["page"]),
@@ -221,9 +221,16 @@ def run(tier, seed):
     cc = corpus_cases()
     reported = {}
     nni = 0
+    # exhaustive small families first: one fill with every assignment of colliding / non-colliding names to the binders
+    # around it (x both behaviours x only x tag on the page / in a component template x with / for between tag and fill),
+    # and loops inside component templates around a child component
+    fam = U.grid_programs(tier == "thorough") + U.loop_programs()
     for mode in ("isolated", "django"):
         rows = evaluate(chk, [c for c in cc if c[2]["mode"] == mode], "corpus" + mode[:3])
         classify(chk, mode, rows, reported)
+        rows = evaluate(chk, [(k, j, p) for j, (k, m, p) in enumerate(fam) if m == mode], "fam" + mode[:3])
+        classify(chk, mode, rows, reported)
+    for mode in ("isolated", "django"):
         cases = list(gen_cases(chk, n, mode))
         bases = [(i, p) for k, i, p in cases if k == "fresh"]
         # the run-A program of each non-interference pair is also a correspondence case (fills that read inner data,
@@ -246,7 +253,10 @@ def run(tier, seed):
         "like loop variables do (the implementation captures both; the statement names only loops)",
     ]
     return chk.finish(
-        rule="%d programs per context behaviour with pairwise distinct variable names and unbound probe reads (`only` on ~15%% of tags; in django mode also "
+        rule="exhaustive small family: one fill of one component tag with every assignment of a colliding / own name to the 8 binder sites around it (page "
+             "variable, owner-component data, with and for around the tag, with or for between tag and fill, slot-data alias, inner-component data, with around "
+             "the slot) x both behaviours x only on/off x tag on the page / in a component template (quick: at most 3 colliding sites; thorough: all), plus 60 "
+             "programs with a loop in a component template around a child component; then %d programs per context behaviour with pairwise distinct variable names and unbound probe reads (`only` on ~15%% of tags; in django mode also "
              "the variant with `only` on every tag), each also in up to 6 variants where two names are merged: up to 4 pairs related through a fill or a "
              "component tag (with/for variable between tag and fill vs data of the owner / of the inner component / enclosing binders; fill alias vs inner "
              "names / reads of slot defaults; loop variable vs binders inside the loop; probe read in a fill or in a component template vs a name bound "
